@@ -65,13 +65,21 @@ def reg_puts_reset_value():
 
 
 class Dump:
-    def __init__(self, sys_obj, sim=None, allow_unknown=False):
+    def __init__(self, sys_obj, sim=None, allow_unknown=False, ids=None):
         import py4hw
         self.sys = sys_obj
         self.sim = sim if sim is not None else sys_obj.getSimulator()
         self.wires = all_wires(sys_obj)
-        self.wid = {id(w): i + 1 for i, w in enumerate(self.wires)}  # 0 = null wire
         self.leaves = sys_obj.allLeaves()
+        if ids is not None:
+            # optional (C04 histories): stable numbering over several dumps of a GROWING hierarchy — `ids` is a dict the caller
+            # keeps; every wire / leaf keeps the number of the dump that saw it first, new objects are numbered after the old
+            for key, objs in (('wires', self.wires), ('leaves', self.leaves)):
+                known = ids.setdefault(key, [])
+                seen = {id(o) for o in known}
+                known += [o for o in objs if id(o) not in seen]
+            self.wires, self.leaves = list(ids['wires']), list(ids['leaves'])
+        self.wid = {id(w): i + 1 for i, w in enumerate(self.wires)}  # 0 = null wire
         self.lid = {id(l): i for i, l in enumerate(self.leaves)}
         self.lines = []
         M = metas()
